@@ -47,6 +47,7 @@ class Hint:
     anchor: str
     text: str = ""
     line: int = 0
+    home_only: bool = False
 
 
 @dataclass
@@ -70,6 +71,7 @@ class FnSpec:
 class Unit:
     name: str
     features: set = field(default_factory=set)
+    rlimit: float = 0
     files: dict = field(default_factory=dict)
     renames: list = field(default_factory=list)
     methods: dict = field(default_factory=dict)
@@ -123,6 +125,8 @@ def parse_unit(path):
                 raw.append(line)
             continue
         if not line.startswith("%"):
+            if line.startswith("# ") or line == "#":
+                continue   # comment line (column 0)
             if buf_target is not None:
                 buf_target(line)
             elif line.strip() and not line.lstrip().startswith("#"):
@@ -137,6 +141,8 @@ def parse_unit(path):
             buf_target = None
         elif unit is None:
             raise SpecError(f"{src}:{n}: directive before %unit")
+        elif d == "%rlimit":
+            unit.rlimit = float(arg)
         elif d == "%features":
             unit.features = set(arg.split())
         elif d == "%file":
@@ -178,6 +184,10 @@ def parse_unit(path):
         elif d == "%extern":
             unit.entries.append(("extern", arg))
             buf_target = None
+        elif d == "%bitflags":
+            # %bitflags MOD : the bitflags! { struct N: T { const A = v; .. } } invocation of module MOD (R7)
+            unit.entries.append(("bitflags", arg))
+            buf_target = None
         elif d == "%raw":
             raw = []
             raw_kind = ("raw",)
@@ -217,11 +227,12 @@ def parse_unit(path):
             def add(l, f=cur_fn, k=k):
                 f.loops[k][1] += l + "\n"
             buf_target = add
-        elif d in ("%before", "%after", "%wrap", "%truncate"):
+        elif d in ("%before", "%after", "%wrap", "%truncate", "%before@home", "%after@home"):
             m = re.match(r"(\d+)\s+`(.*)`\s*$", arg)
             if not m:
                 raise SpecError(f"{src}:{n}: bad anchor syntax: {arg!r}")
-            h = Hint(d[1:], int(m.group(1)), m.group(2), line=n)
+            h = Hint(d[1:].replace("@home", ""), int(m.group(1)), m.group(2), line=n)
+            h.home_only = d.endswith("@home")   # not spliced into the strict (as-stated) twin
             if h.mode == "truncate":
                 # %truncate N `expr as T` : mark a deliberately truncating cast (Rust `as` truncates;
                 # Verus leaves an out-of-range cast unspecified unless it is marked)
